@@ -211,6 +211,8 @@ structure Variant where
   fdivCopy : Bool := true          -- fdiv_qr.c:39-44, fdiv_r.c:38-43, mod.c:38-43: temp_divisor
   divexactTmp : Bool := true       -- divexact.c:68-69: quotient built in TMP space when quot is num or den
   copyBeforeFree : Bool := true    -- divexact.c:79-82: the copy back to quot precedes TMP_FREE
+  zeroAfterShift : Bool := true    -- mul_2exp.c:64-66: MPN_ZERO (wp, limb_cnt) after the shift "not to lose for U == W"
+  roundBeforeShift : Bool := true  -- cfdiv_q_2exp.c:57-62: the skipped low limbs are inspected before the shift
   deriving Repr
 
 def Variant.c : Variant := {}
@@ -458,6 +460,96 @@ def divexactV (V : Variant) (quot num den : Nat) (s : St) : R St := do
     pure (if c ∧ V.copyBeforeFree then s.free qp else s)      -- :82 TMP_FREE
 
 def divexact := divexactV .c
+
+/-! ## shifts by whole limbs + bits: mpz_mul_2exp, mpz_tdiv_q_2exp, mpz_cdiv_q_2exp / mpz_fdiv_q_2exp -/
+
+/-- `b` with `l` written at offset `off` -/
+def wrAt (b : List Nat) (off : Nat) (l : List Nat) : List Nat := b.take off ++ l ++ b.drop (off + l.length)
+
+/-- read `n` limbs at `p + off` -/
+def St.loadAt (s : St) (p off n : Nat) : R (List Nat) :=
+  match s.blk p with
+  | none => .error "ub:read of a freed block"
+  | some l => if off + n ≤ l.length then .ok ((l.drop off).take n) else .error "ub:read past the end of a block"
+
+/-- write `l` at `p + off` -/
+def St.storeAt (s : St) (p off : Nat) (l : List Nat) : R St :=
+  match s.blk p with
+  | none => .error "ub:write to a freed block"
+  | some b => if off + l.length ≤ b.length then .ok (s.setBlk p (some (wrAt b off l)))
+              else .error "ub:write past the end of a block"
+
+/-- mpn_lshift (rp+roff, up+uoff, n, cnt): mpn/generic/lshift.c ASSERTs `n >= 1`, `1 <= cnt < GMP_NUMB_BITS`,
+    `MPN_SAME_OR_DECR_P (rp, up, n)` (destination at or above the source, or disjoint).  Returns the bits shifted out. -/
+def mpn_lshift (rp roff up uoff n cnt : Nat) (s : St) : R (Nat × St) := do
+  if ¬ (1 ≤ n ∧ 1 ≤ cnt ∧ cnt < 64) then throw "ub:mpn_lshift arguments"
+  if rp = up ∧ roff < uoff ∧ uoff < roff + n then throw "ub:mpn_lshift overlap"
+  let u ← s.loadAt up uoff n
+  let v := val u * 2 ^ cnt
+  let s ← s.storeAt rp roff (toLimbs n v)
+  pure (v / B ^ n, s)
+
+/-- mpn_rshift (rp+roff, up+uoff, n, cnt): `MPN_SAME_OR_INCR_P` (destination at or below the source, or disjoint).
+    Returns the bits shifted out, in the high end of a limb. -/
+def mpn_rshift (rp roff up uoff n cnt : Nat) (s : St) : R (Nat × St) := do
+  if ¬ (1 ≤ n ∧ 1 ≤ cnt ∧ cnt < 64) then throw "ub:mpn_rshift arguments"
+  if rp = up ∧ uoff < roff ∧ roff < uoff + n then throw "ub:mpn_rshift overlap"
+  let u ← s.loadAt up uoff n
+  let s ← s.storeAt rp roff (toLimbs n (val u / 2 ^ cnt))
+  pure (val u % 2 ^ cnt * 2 ^ (64 - cnt), s)
+
+/-- MPN_COPY_INCR (overlap rule of rshift) / MPN_COPY_DECR (overlap rule of lshift); n = 0 allowed -/
+def mpn_copy (incr : Bool) (rp roff up uoff n : Nat) (s : St) : R St := do
+  if incr ∧ rp = up ∧ uoff < roff ∧ roff < uoff + n then throw "ub:MPN_COPY_INCR overlap"
+  if !incr ∧ rp = up ∧ roff < uoff ∧ uoff < roff + n then throw "ub:MPN_COPY_DECR overlap"
+  let u ← s.loadAt up uoff n
+  s.storeAt rp roff u
+
+/-- mpz_mul_2exp (w, u, cnt): mpz/mul_2exp.c:28-69 -/
+def mul_2expV (V : Variant) (w u cnt : Nat) (s : St) : R St := do
+  let usize := s.size u                                       -- mul_2exp.c:28
+  let abs_usize := usize.natAbs                               -- :29
+  if usize = 0 then pure (s.setSize w 0)                      -- :35-39
+  else
+    let limb_cnt := cnt / 64                                  -- :41
+    let s := s.mpzRealloc w (abs_usize + limb_cnt + 1)        -- :42-44
+    let wp := s.ptr w                                         -- :46
+    let s ← (if V.zeroAfterShift then pure s else s.storeAt wp 0 (List.replicate limb_cnt 0))   -- (wrong variant)
+    let c := cnt % 64                                         -- :49
+    let (wsize, s) ← (if c ≠ 0 then do                        -- :50
+        let r ← mpn_lshift wp limb_cnt (s.ptr u) 0 abs_usize c s          -- :52 (u->_mp_d fetched here)
+        if r.1 ≠ 0 then do                                    -- :53
+          let s ← r.2.storeAt wp (abs_usize + limb_cnt) [r.1] -- :55
+          pure (abs_usize + limb_cnt + 1, s)                  -- :56
+        else pure (abs_usize + limb_cnt, r.2)
+      else do
+        let s ← mpn_copy false wp limb_cnt (s.ptr u) 0 abs_usize s        -- :61 MPN_COPY_DECR
+        pure (abs_usize + limb_cnt, s))
+    let s ← (if V.zeroAfterShift then s.storeAt wp 0 (List.replicate limb_cnt 0) else pure s)   -- :66 MPN_ZERO
+    pure (s.setSize w (if usize ≥ 0 then (wsize : Int) else -(wsize : Int)))                     -- :68
+
+def mul_2exp := mul_2expV .c
+
+/-- mpz_tdiv_q_2exp (w, u, cnt): mpz/tdiv_q_2exp.c:32-62 -/
+def tdiv_q_2exp (w u cnt : Nat) (s : St) : R St := do
+  let usize := s.size u                                       -- tdiv_q_2exp.c:32
+  let limb_cnt := cnt / 64                                    -- :33
+  let wsize : Int := (usize.natAbs : Int) - (limb_cnt : Int)  -- :34
+  if wsize ≤ 0 then pure (s.setSize w 0)                      -- :35-36
+  else
+    let wsize := wsize.toNat
+    let s := s.mpzRealloc w wsize                             -- :42-43
+    let wp := s.ptr w                                         -- :45
+    let up := s.ptr u                                         -- :46
+    let c := cnt % 64                                         -- :48
+    if c ≠ 0 then do                                          -- :49
+      let r ← mpn_rshift wp 0 up limb_cnt wsize c s           -- :51
+      let top ← limbAt r.2 wp (wsize - 1)                     -- :52
+      let wsize := wsize - (if top = 0 then 1 else 0)
+      pure (r.2.setSize w (if usize ≥ 0 then (wsize : Int) else -(wsize : Int)))   -- :59
+    else do
+      let s ← mpn_copy true wp 0 up limb_cnt wsize s          -- :56 MPN_COPY_INCR
+      pure (s.setSize w (if usize ≥ 0 then (wsize : Int) else -(wsize : Int)))     -- :59
 
 /-! ## building a state from values (driver, examples) -/
 
